@@ -127,6 +127,23 @@ def env_case(ctx, case) -> None:
                 ctx.violation("unstep-does-not-restore", f"step({a});unstep({a}) changed {diff} (n={n}, computer={comp}, "
                               f"gap={gapname}, after actions {case['actions']})", case)
                 before = after
+            if ctx.rng.random() < 0.5:
+                # interleaved undo: reveal a, reveal b, take a back, take b back (and the LIFO order) must also restore everything
+                others = [int(x) for x in np.nonzero(env.action_masks())[0] if int(x) != a]
+                if others:
+                    b = ctx.rng.choice(others)
+                    for order in ((a, b, a, b), (a, b, b, a)):
+                        env.step(order[0])
+                        env.step(order[1])
+                        env.unstep(order[2])
+                        env.unstep(order[3])
+                        ctx.count("env_interleaved_undo_sequences")
+                        if snap() != before:
+                            names = ["table", "observation", "reward", "steps_taken", "done", "mask"]
+                            diff = [nm for nm, x, y in zip(names, before, snap()) if x != y]
+                            ctx.violation("unstep-does-not-restore", f"step({order[0]});step({order[1]});unstep({order[2]});unstep({order[3]}) "
+                                          f"changed {diff} (n={n}, computer={comp}, gap={gapname}, after actions {case['actions']})", case)
+                            before = snap()
             ctx.case((values, tuple(case["actions"]), a, comp, gapname), mid[0] != before[0],
                      sample=({"n": n, "computer": comp, "gap": gapname, "actions": case["actions"], "probe": a}
                              if a == 0 and len(case["actions"]) == 1 else None))
